@@ -17,7 +17,11 @@ def gen_c04(r, big=False):
         ops = []
         for _ in range(r.randint(1, 8 if big else 5)):
             c = r.random()
-            if c < 0.5:
+            if c < 0.08:
+                # a blocking primitive built on thread_usleep_defer (nobody signals sx): times out, is interrupted, or is
+                # cut short by the shutdown bound
+                ops.append("waiti sx 1 %s" % r.choice(["100", "5000", "50000", "inf"]))
+            elif c < 0.5:
                 ops.append("sleep %s" % r.choice(["0", "1", "100", "100", "100", "250", "1000", "1000", "5000", "inf"]))
             elif c < 0.65:
                 ops.append("yield")
@@ -27,7 +31,7 @@ def gen_c04(r, big=False):
                 ops.append("shutdown %s" % r.choice(names))
                 shutdown_used = True
         scripts.append((t, ops))
-    lines = threads_lines(scripts)
+    lines = ["obj sem sx 0 1"] + threads_lines(scripts)
     for _ in range(r.randint(0, 4)):
         lines.append("at %d intr %s %d" % (r.choice([0, 99, 100, 101, 250, 999, 1000, 1001, 3000, 20000]), r.choice(names), r.choice([4, 11])))
     # a thread that sleeps forever needs somebody to wake it: a late external interrupt for every thread
